@@ -32,7 +32,7 @@ GROUPS = {
     'relay_map_bx': dict(
         unit='relay_map.rs', props=['C43'],
         bounds=dict(quick=['2', '0'], thorough=['3', '0']),
-        space='every sequence of at most {0} operations drawn from 22 (insert of 2 URLs x 2 configs, remove, set token, on either of two handles; extend and == for '
+        space='every sequence of at most {0} operations drawn from 26 (insert of 2 URLs x 2 configs, insert of a configuration that names ANOTHER URL than the key, remove, set token, on either of two handles; extend and == for '
               'all 4 handle pairs), once with two independent maps and once with the second handle a clone sharing the first one\'s map; each sequence runs on a '
               'watchdog thread (1.5 s) and is compared with plain BTreeMaps after every operation',
         nontrivial='sequences of at least two operations',
@@ -328,6 +328,22 @@ GROUPS = {
               'connection of endpoint 2 takes over, endpoint 1 writes {0}/2 more. The interleaving of the relay\'s tasks is whatever the runtime produces for that script',
         nontrivial='both runs',
         functions=['the whole path Client::send -> relay connection actor (read) -> Clients::send_packet -> destination connection actor (write) -> Client::next'],
+    ),
+    # second line behind the Verus unit tls_verifier (C01): the real crate with its verification hooks switched on
+    'tls_handshake_cx': dict(
+        cargo='tls_handshake', binary='verif-tls-handshake', unit='(cargo) tls_handshake/src/main.rs', props=['C01'],
+        rustflags='--cfg n0_computer_iroh_verif', target_suffix='verifcfg',
+        files='iroh/src/tls/name.rs, iroh/src/tls/verifier.rs, iroh/src/tls/resolver.rs',
+        bounds=dict(quick=['12', '0'], thorough=['120', '0']),
+        space='(1) name codec: {0} ids — decode(encode(id)); every single-character substitution (42 characters for the first three ids, 6 for the rest), deletion, '
+              'insertion of 3 characters at every position, every truncation, 21 label / case / padding / suffix variants of each encoded name; (2) verify_server_cert on 4 '
+              'dialed ids x (the right SPKI, the other ids\' SPKIs, every byte of the SPKI flipped 3 ways, every truncation, 3 extensions, the bare key) x 8 server names x '
+              '0..2 intermediates; (3) real in-memory TLS 1.3 handshakes: client dials key d, server presents SPKI(key c) and signs with key s, for all d, c, s of 4 keys, '
+              'with a valid signature, a garbage signature, a certificate with a trailing byte, or iroh\'s own resolver; the mirror image for client authentication; (4) each of the curve\'s 8 small-order points that EndpointId accepts, presented with the '
+              'constant signature (R = neutral element, s = 0) that only strict verification rejects, by a server and by a client',
+        nontrivial='mutated names, mutated certificates, all handshakes',
+        functions=['tls::name::{encode, decode}', 'ServerCertificateVerifier::{verify_server_cert, verify_tls13_signature}', 'ClientCertificateVerifier::{verify_client_cert, verify_tls13_signature}',
+                   'Ed25519Dalek::verify_signature', 'ResolveRawPublicKeyCert / IrohSecretKey (signing)'],
     ),
     # second line behind the Verus unit hooks
     'hooks_bx': dict(
@@ -626,10 +642,12 @@ def run_cargo_group(g, d, res, work, tier, only, t0):
     with open(os.path.join(work, 'Cargo.toml'), 'w') as f:
         f.write(open(os.path.join(src_dir, 'Cargo.toml.in')).read().replace('@REPO@', repo))
     shutil.copy(os.path.join(repo, 'Cargo.lock'), os.path.join(work, 'Cargo.lock'))
-    target = os.path.join(CACHE, 'cargo-target')
+    target = os.path.join(CACHE, 'cargo-target' + ('-' + d['target_suffix'] if d.get('target_suffix') else ''))
     env = dict(os.environ, CARGO_NET_OFFLINE='true', CARGO_TARGET_DIR=target, VERIF_BX_SHIMS=os.path.join(HERE, 'shims'))
+    if d.get('rustflags'):
+        env['RUSTFLAGS'] = d['rustflags']     # the cfg flag that switches /repo's guarded verification hooks on
     cmd = ['cargo', 'build', '--release', '--offline', '--quiet', '--manifest-path', os.path.join(work, 'Cargo.toml')]
-    res['cmds'].append(f'(cd <generated {g}>) CARGO_TARGET_DIR=<cache> ' + ' '.join(cmd[:5]))
+    res['cmds'].append(f'(cd <generated {g}>) CARGO_TARGET_DIR=<cache> ' + (f'RUSTFLAGS="{d["rustflags"]}" ' if d.get('rustflags') else '') + ' '.join(cmd[:5]))
     p = subprocess.run(cmd, capture_output=True, text=True, env=env, timeout=3000)
     if p.returncode != 0:
         res['reason'] = 'cargo could not build the harness against the current tree (the public API it uses changed, or the tree does not compile): ' + p.stderr.strip()[-600:]
